@@ -89,25 +89,87 @@ class Lock:
         self.f.close()
 
 
-def coq_makefile():
-    """(Re)generate coq/Makefile when the set of .v files changed."""
+def coq_deps():
+    """file.v -> list of .v files (relative to coq/) it requires, via coqdep."""
     files = coq_files()
-    proj = open(os.path.join(COQ, "_CoqProject")).read().rstrip("\n").split("\n")
-    head = [l for l in proj if l.startswith("-")]
-    want = "\n".join(head + files) + "\n"
-    listing = os.path.join(COQ, "_CoqProject.full")
-    cur = open(listing).read() if os.path.exists(listing) else ""
-    if cur != want or not os.path.exists(os.path.join(COQ, "Makefile")):
-        open(listing, "w").write(want)
-        sh(["coq_makefile", "-f", "_CoqProject.full", "-o", "Makefile"], cwd=COQ, check=True)
+    rc, out = sh(["coqdep", "-Q", ".", "V"] + files, cwd=COQ, timeout=300)
+    deps = {}
+    for line in out.split("\n"):
+        m = re.match(r"^(\S+)\.vo\s.*?:\s+(.*)$", line)
+        if not m:
+            continue
+        tgt = m.group(1) + ".v"
+        ds = [d[:-3] + ".v" for d in m.group(2).split() if d.endswith(".vo")]
+        deps[os.path.normpath(tgt)] = [os.path.normpath(d) for d in ds if not d.startswith("/")]
+    return deps
+
+
+def _closure(targets, deps):
+    order, seen = [], set()
+
+    def visit(f):
+        if f in seen:
+            return
+        seen.add(f)
+        for d in deps.get(f, []):
+            visit(d)
+        order.append(f)
+    for t in targets:
+        visit(t)
+    return order
+
+
+def _stale(f, deps):
+    vo = os.path.join(COQ, f[:-2] + ".vo")
+    if not os.path.exists(vo):
+        return True
+    t = os.path.getmtime(vo)
+    if os.path.getmtime(os.path.join(COQ, f)) > t:
+        return True
+    for d in deps.get(f, []):
+        dvo = os.path.join(COQ, d[:-2] + ".vo")
+        if not os.path.exists(dvo) or os.path.getmtime(dvo) > t:
+            return True
+    return False
+
+
+def _compile(f, deps, timeout):
+    with Lock("coq-" + f.replace("/", "_")):
+        if not _stale(f, deps):
+            return 0, ""
+        return sh(["coqc", "-q", "-Q", ".", "V", "-w", "-notation-overridden,-deprecated-hint-without-locality,-deprecated-instance-without-locality", f],
+                  cwd=COQ, timeout=timeout)
 
 
 def coq_make(targets, timeout=1500, jobs=16):
-    """Full .vo build of the given targets (paths relative to coq/). Returns (ok, log)."""
-    with Lock("coqmake"):
-        coq_makefile()
-        rc, out = sh(["make", "-j%d" % jobs] + targets, cwd=COQ, timeout=timeout)
-    return rc == 0, out
+    """Full .vo build (plain coqc, no -vos) of the dependency closure of `targets`
+    (paths relative to coq/, .vo or .v). Files are rebuilt when their source or any dependency
+    is newer; each file is compiled under its own lock so concurrent checks can share coq/Lib.
+    Returns (ok, log)."""
+    tg = [os.path.normpath(t[:-3] + ".v" if t.endswith(".vo") else t) for t in targets]
+    deps = coq_deps()
+    for t in tg:
+        if not os.path.exists(os.path.join(COQ, t)):
+            return False, "missing source file coq/%s" % t
+    order = _closure(tg, deps)
+    done, logs = set(), []
+    pending = list(order)
+    t_end = time.time() + timeout
+    with ThreadPoolExecutor(max_workers=jobs) as ex:
+        while pending:
+            ready = [f for f in pending if all(d in done for d in deps.get(f, []) if d in order)]
+            if not ready:
+                return False, "dependency cycle among: %s" % pending
+            futs = {f: ex.submit(_compile, f, deps, max(30, int(t_end - time.time()))) for f in ready}
+            for f, fu in futs.items():
+                rc, out = fu.result()
+                if out.strip():
+                    logs.append("== %s\n%s" % (f, out))
+                if rc != 0:
+                    return False, "\n".join(logs)
+                done.add(f)
+                pending.remove(f)
+    return True, "\n".join(logs)
 
 
 def theorem_names(pid):
